@@ -392,13 +392,18 @@ class FunctionRun:
         from . import pyspec, npspec
 
         def run_once():
-            g = pyspec.make_globals()
+            g = _ResolvingGlobals(pyspec.make_globals())
             g['np'] = npspec.module()
             g['__vc_locals__'] = builtins.locals
             vc.g = g
             vc.inlined = []
+            vc.resolved_from_tree = []
             vc.repo = self.repo
             s, args, kwargs = c.setup(vc)
+            if not getattr(c, 'no_tree_fallback', False) and '::' in c.target and not c.target.startswith('@'):
+                g._vc_setup(vc, c.target.split('::')[0], c.target.split('::')[1].split('.')[0].split('#')[0] if '.' not in c.target.split('::')[1] else None)
+                if args:
+                    _install_self_fallback(vc, c.target, args[0])
             vc._s = s                      # contract state, for env() / hooks that need it before requires() runs
             g.update(c.env(vc))
             vc.hooks = dict(c.hooks(s)) if hasattr(c, 'hooks') else {}
@@ -473,6 +478,239 @@ def _from_analysed_code(e):
     return False
 
 
+
+# ---------------------------------------------------------------------- names an EDIT introduces: resolved from the tree
+# A restructuring edit extracts a helper, adds a module-level table or a class constant.  The contract's environment
+# cannot know such names in advance; without help the run ends in NameError / AttributeError = undecided.  The two
+# fallbacks below resolve a name ONLY when the contract does not supply it, and only to what the tree itself defines:
+#   * a `def` (module level, or a method / staticmethod / classmethod / property of the class under analysis or of a base
+#     class in the same module) is the REAL function, instrumented and inlined;
+#   * an assignment of a python literal is that literal - unless the object is mutable and the module mutates it or hands it
+#     to a call somewhere: then it is STATE THAT SURVIVES BETWEEN CALLS, modelled by ModuleState (content unknown: reads
+#     taint the path and leave the subset; stores / clear() are accepted);
+#   * anything else stays unresolved (fail closed).
+_MUTATORS = frozenset(('append', 'extend', 'insert', 'pop', 'remove', 'clear', 'update', 'setdefault', 'add', 'discard',
+                       'popitem', 'sort', 'reverse', '__setitem__', '__delitem__'))
+_IMMUTABLE = (int, float, complex, str, bytes, bool, type(None))
+
+
+class ModuleState:
+    """a module-level (or class-level) mutable object: its content is whatever earlier calls left there"""
+    _vc_module_state = True
+
+    def __init__(self, name):
+        self._vc_name = name
+
+    def _read(self, what):
+        cur().taint('content of the shared mutable object `%s` left by earlier calls' % self._vc_name)
+        raise OutOfSubset('read (%s) of the shared mutable object `%s`, whose content from earlier calls is unknown' % (what, self._vc_name))
+
+    def __bool__(self):
+        self._read('truthiness')
+
+    def __len__(self):
+        self._read('len')
+
+    def __iter__(self):
+        self._read('iteration')
+
+    def __contains__(self, k):
+        self._read('membership')
+
+    def __getitem__(self, k):
+        self._read('lookup')
+
+    def get(self, *a):
+        self._read('get')
+
+    def pop(self, *a):
+        self._read('pop')
+
+    def setdefault(self, *a):
+        self._read('setdefault')
+
+    def __setitem__(self, k, v):
+        pass
+
+    def __delitem__(self, k):
+        pass
+
+    def clear(self):
+        pass
+
+    def update(self, *a, **k):
+        pass
+
+    def append(self, v):
+        pass
+
+    def add(self, v):
+        pass
+
+
+def _is_immutable_literal(v):
+    if isinstance(v, _IMMUTABLE):
+        return True
+    if isinstance(v, (tuple, frozenset)):
+        return all(_is_immutable_literal(x) for x in v)
+    return False
+
+
+_module_info_cache = {}
+
+
+def _module_info(path, repo):
+    import ast
+    src, tree = instrument._parse(path, repo)
+    key = (path, repo, hash(src))
+    if key in _module_info_cache:
+        return _module_info_cache[key]
+    top, classes = {}, {}
+    for n in tree.body:
+        if isinstance(n, ast.FunctionDef):
+            top[n.name] = ('def', n)
+        elif isinstance(n, ast.ClassDef):
+            classes[n.name] = n
+        elif isinstance(n, ast.Assign) and len(n.targets) == 1 and isinstance(n.targets[0], ast.Name):
+            top[n.targets[0].id] = ('assign', n.value)
+        elif isinstance(n, ast.AnnAssign) and isinstance(n.target, ast.Name) and n.value is not None:
+            top[n.target.id] = ('assign', n.value)
+    shared = set()         # names / attribute names that are mutated, or handed to a call, somewhere in the module
+
+    def base_name(x):
+        if isinstance(x, ast.Name):
+            return x.id
+        if isinstance(x, ast.Attribute):
+            return x.attr
+        return None
+    for x in ast.walk(tree):
+        if isinstance(x, ast.Subscript) and isinstance(x.ctx, (ast.Store, ast.Del)):
+            shared.add(base_name(x.value))
+        elif isinstance(x, ast.Call):
+            if isinstance(x.func, ast.Attribute) and x.func.attr in _MUTATORS:
+                shared.add(base_name(x.func.value))
+            for a in list(x.args) + [k.value for k in x.keywords]:
+                if isinstance(a, ast.Starred):
+                    a = a.value
+                shared.add(base_name(a))
+        elif isinstance(x, ast.Global):
+            shared.update(x.names)
+        elif isinstance(x, ast.AugAssign):
+            shared.add(base_name(x.target))
+    shared.discard(None)
+    info = (top, classes, shared)
+    _module_info_cache[key] = info
+    return info
+
+
+_UNRESOLVED = object()
+
+
+def _literal_or_state(value_node, name, shared):
+    import ast
+    if isinstance(value_node, ast.Call) and isinstance(value_node.func, ast.Name) and value_node.func.id in ('dict', 'list', 'set') \
+            and not value_node.args and not value_node.keywords:
+        v = {'dict': dict, 'list': list, 'set': set}[value_node.func.id]()
+    else:
+        try:
+            v = ast.literal_eval(value_node)
+        except (ValueError, SyntaxError, TypeError, MemoryError, RecursionError):
+            return _UNRESOLVED
+    if _is_immutable_literal(v):
+        return v
+    if name in shared:
+        return ModuleState(name)
+    return v            # a table that the module only reads: a fresh copy of the literal per run
+
+
+class _ResolvingGlobals(dict):
+    """globals of the analysed function: a name the contract environment lacks is looked up at the top level of the
+    analysed module in the tree (see the comment block above)"""
+
+    def _vc_setup(self, vc, path, own_name):
+        self._vc = (vc, path, own_name)
+
+    def __missing__(self, name):
+        st = getattr(self, '_vc', None)
+        if st is None or name.startswith('__'):
+            raise KeyError(name)
+        vc, path, own_name = st
+        top, classes, shared = _module_info(path, vc.repo)
+        if name == own_name or name not in top:
+            raise KeyError(name)
+        kind, node = top[name]
+        if kind == 'def':
+            v = inline(vc, '%s::%s' % (path, name))
+        else:
+            v = _literal_or_state(node, name, shared)
+            if v is _UNRESOLVED:
+                raise KeyError(name)
+        self[name] = v
+        vc.resolved_from_tree.append('%s::%s' % (path, name))
+        return v
+
+
+def _class_chain(path, repo, clsname):
+    """the ClassDef of `clsname` and of its base classes defined in the same module, in MRO-like order (single inheritance chains)"""
+    import ast
+    top, classes, shared = _module_info(path, repo)
+    out, todo, seen = [], [clsname], set()
+    while todo:
+        c = todo.pop(0)
+        if c in seen or c not in classes:
+            continue
+        seen.add(c)
+        out.append(classes[c])
+        todo.extend(b.id for b in classes[c].bases if isinstance(b, ast.Name))
+    return out, shared
+
+
+def _install_self_fallback(vc, target, obj):
+    """stub `self` / `cls` made by make_object: a member the contract did not give it is looked up in the REAL class"""
+    import ast
+    if target.startswith('@') or '::' not in target:
+        return
+    path, qual = target.split('::')
+    parts = [p.split('#')[0] for p in qual.split('.')]
+    T = type(obj)
+    if len(parts) < 2 or not T.__dict__.get('_vc_made') or any('__getattr__' in k.__dict__ for k in T.__mro__[:-1]):
+        return
+    clsname = parts[-2]
+
+    def __getattr__(self, k):
+        if k.startswith('__') or k.startswith('_vc_'):
+            raise AttributeError(k)
+        v = cur()
+        chain, shared = _class_chain(path, v.repo, clsname)
+        for cd in chain:
+            hit = None
+            for st in cd.body:
+                if isinstance(st, ast.FunctionDef) and st.name == k:
+                    hit = st            # last definition wins
+                elif isinstance(st, ast.Assign) and len(st.targets) == 1 and isinstance(st.targets[0], ast.Name) and st.targets[0].id == k:
+                    hit = st
+            if hit is None:
+                continue
+            if isinstance(hit, ast.Assign):
+                val = _literal_or_state(hit.value, k, shared)
+                if val is _UNRESOLVED:
+                    raise AttributeError(k)
+                v.resolved_from_tree.append('%s::%s.%s' % (path, cd.name, k))
+                return val
+            decos = [d.id if isinstance(d, ast.Name) else (d.attr if isinstance(d, ast.Attribute) else '?') for d in hit.decorator_list]
+            if any(d not in ('staticmethod', 'classmethod', 'property') for d in decos):
+                raise AttributeError(k)         # an unknown decorator: fail closed
+            fn = inline(v, '%s::%s.%s' % (path, cd.name, k))
+            v.resolved_from_tree.append('%s::%s.%s' % (path, cd.name, k))
+            if 'staticmethod' in decos:
+                return fn
+            if 'property' in decos:
+                return fn(self)
+            return types.MethodType(fn, self)       # plain method or classmethod: the stub plays both roles
+        raise AttributeError(k)
+    T.__getattr__ = __getattr__
+
+
 class Stub:
     """Modular call: a callee under contract, seen from a caller.  `spec` is a plain function
     spec(vc, *args, **kwargs) that obliges the callee's preconditions (call-pre), havocs what it
@@ -517,6 +755,7 @@ def make_object(name, attrs=None, methods=None, properties=None, bases=()):
         d[k] = property(f)
     for k, f in (methods or {}).items():
         d[k] = f
+    d['_vc_made'] = True
     cls = type(name, tuple(bases) or (object,), d)
     o = cls.__new__(cls)
     for k, v in (attrs or {}).items():
